@@ -30,7 +30,7 @@ def depth_of(root):
 
 
 FIELDS = ("id", "name", "content", "tail", "prefix", "attributes", "attributes_obj", "extras", "extras_obj",
-          "nsmap", "nsmap_obj", "parent_obj", "children_objs", "children_list_obj")
+          "nsmap", "nsmap_obj", "parent_obj", "children_objs", "children_list_obj", "instance_attribute_names")
 
 
 def snap_node(n):
@@ -40,7 +40,8 @@ def snap_node(n):
             tuple(n.extras.items()), id(n.extras),
             tuple(n.nsmap.items()), id(n.nsmap),
             id(p) if p is not None else None,
-            tuple(id(c) for c in n.children), id(n.children))
+            tuple(id(c) for c in n.children), id(n.children),
+            tuple(sorted(getattr(n, "__dict__", {}))))
 
 
 class Snap:
